@@ -873,8 +873,98 @@ func c55RunInproc(t testing.TB, e *vEnv, s *c55Script, mode string, variant int,
 			return ffs
 		}
 	}
-	parentID := ""
+	// faulted runs one backup under the faults of the script and records it; label is the mode it is judged as
+	faulted := func(label string, opts BackupOptions, parentID string) (newSnapshot string) {
+		ffs := c55Faulty(tr, s, side)
+		hook(ffs)
+		before := map[string]bool{}
+		for _, id := range e.snapshotIDs() {
+			before[id] = true
+		}
+		t0 := time.Now()
+		berr := e.backup(base, tr.targets, opts)
+		res.Count("ms_backup", int(time.Since(t0).Milliseconds()))
+		backupFSTestHook = nil
+		for _, tb := range ffs.trouble {
+			res.Problem("script %d (%s): swap failed: %s", s.idx, mode, tb)
+		}
+		if len(ffs.trouble) > 0 {
+			return ""
+		}
+		status := c55Status(berr)
+		delivered := make([]bool, len(s.Kind))
+		for i := 1; i < len(tr.rel); i++ {
+			if s.Fault[i-1] == "target_missing" {
+				delivered[i-1] = true // the target does not exist on disk: restic was asked to back it up and cannot
+			} else {
+				delivered[i-1] = ffs.delivered[filepath.Join(base, tr.rel[i])]
+			}
+		}
+		t1 := time.Now()
+		var fresh []string
+		for _, id := range e.snapshotIDs() {
+			if !before[id] {
+				fresh = append(fresh, id)
+			}
+		}
+		saved, insnap, extra, contentOK, hasParent, detail := c55Snapshot(e, before, tr, s)
+		if saved {
+			newSnapshot = fresh[0]
+		}
+		skipped := false
+		if opts.SkipIfUnchanged && len(fresh) == 0 {
+			// --skip-if-unchanged and no new snapshot: the tree is said to equal the parent's; look at the parent
+			skipped = true
+			_, insnap, extra, contentOK, _, detail = c55SnapshotOf(e, parentID, tr, s)
+			detail = "skipped; parent: " + detail
+			res.Count("skip_mode_snapshot_skipped", 1)
+		}
+		res.Count("ms_inspect", int(time.Since(t1).Milliseconds()))
+		if label != "noparent" && saved && !hasParent {
+			res.Problem("script %d: %s mode but the snapshot has no parent", s.idx, label)
+		}
+		pred := c55Predicted(s)
+		asPlanned := true
+		for i := range pred {
+			if pred[i] != delivered[i] {
+				asPlanned = false
+			}
+		}
+		if label == "noparent" {
+			if !asPlanned {
+				res.Count("noparent_delivery_differs_from_plan", 1)
+			} else if s.ExpStatus != 99 && s.ExpStatus != status {
+				res.Count("noparent_status_differs_from_tlc_prediction", 1)
+			}
+		}
+		errText := ""
+		if berr != nil {
+			errText = berr.Error()
+			if len(errText) > 200 {
+				errText = errText[:200]
+			}
+		}
+		rec := map[string]any{"mode": "inproc-" + label, "script": s.idx, "variant": variant, "group": s.Group, "items": c55Items(s, delivered), "status": status,
+			"saved": saved, "skipped": skipped, "insnap": insnap, "extra": extra, "content_ok": contentOK, "err": errText, "detail": detail, "key": c55Key(s, delivered)}
+		res.Record(rec)
+		res.Count("runs_inproc_"+label, 1)
+		res.Count(fmt.Sprintf("status_%d", status), 1)
+		k := c55Key(s, delivered)
+		if k != "" {
+			for _, cl := range strings.Split(k, "+") {
+				res.Count("delivered_"+cl, 1)
+			}
+		}
+		res.Case(fmt.Sprintf("%s|%v|%v|%s|%v", label, s.Parent, s.Kind, k, delivered), k != "")
+		if run%977 == 3 {
+			res.Sample(rec)
+		}
+		return newSnapshot
+	}
+
 	switch mode {
+	case "noparent":
+		faulted("noparent", opts, "")
 	case "parent":
 		backupFSTestHook = nil
 		err := e.backup(base, tr.targets, opts)
@@ -891,105 +981,17 @@ func c55RunInproc(t testing.TB, e *vEnv, s *c55Script, mode string, variant int,
 				}
 			}
 		}
+		faulted("parent", opts, "")
 	case "skip":
-		// the parent is taken from the same source under the same faults; nothing changes afterwards
-		old := map[string]bool{}
-		for _, id := range e.snapshotIDs() {
-			old[id] = true
-		}
-		hook(c55Faulty(tr, s, side))
-		err := e.backup(base, tr.targets, opts)
-		backupFSTestHook = nil
-		if err != nil && err != ErrInvalidSourceData {
-			// judged by the noparent run of the same script
-			res.Count("skip_mode_first_run_failed", 1)
-			return
-		}
-		for _, id := range e.snapshotIDs() {
-			if !old[id] {
-				parentID = id
-			}
-		}
+		// the parent is taken from the same source under the same faults (a run without parent, judged as such);
+		// nothing changes afterwards
+		parentID := faulted("noparent", opts, "")
 		if parentID == "" {
-			res.Count("skip_mode_first_run_without_snapshot", 1)
+			res.Count("skip_mode_first_run_without_snapshot", 1) // (rejected by TLC as a run without parent)
 			return
 		}
 		opts.SkipIfUnchanged = true
-	}
-	ffs := c55Faulty(tr, s, side)
-	hook(ffs)
-	before := map[string]bool{}
-	for _, id := range e.snapshotIDs() {
-		before[id] = true
-	}
-	t0 := time.Now()
-	berr := e.backup(base, tr.targets, opts)
-	res.Count("ms_backup", int(time.Since(t0).Milliseconds()))
-	backupFSTestHook = nil
-	for _, tb := range ffs.trouble {
-		res.Problem("script %d (%s): swap failed: %s", s.idx, mode, tb)
-	}
-	if len(ffs.trouble) > 0 {
-		return
-	}
-	status := c55Status(berr)
-	delivered := make([]bool, len(s.Kind))
-	for i := 1; i < len(tr.rel); i++ {
-		if s.Fault[i-1] == "target_missing" {
-			delivered[i-1] = true // the target does not exist on disk: restic was asked to back it up and cannot
-		} else {
-			delivered[i-1] = ffs.delivered[filepath.Join(base, tr.rel[i])]
-		}
-	}
-	t1 := time.Now()
-	saved, insnap, extra, contentOK, hasParent, detail := c55Snapshot(e, before, tr, s)
-	skipped := false
-	if mode == "skip" && !saved && detail == "0 new snapshots" {
-		// --skip-if-unchanged and no new snapshot: the tree is said to equal the parent's; look at the parent
-		skipped = true
-		_, insnap, extra, contentOK, _, detail = c55SnapshotOf(e, parentID, tr, s)
-		detail = "skipped; parent: " + detail
-		res.Count("skip_mode_snapshot_skipped", 1)
-	}
-	res.Count("ms_inspect", int(time.Since(t1).Milliseconds()))
-	if mode != "noparent" && saved && !hasParent {
-		res.Problem("script %d: %s mode but the snapshot has no parent", s.idx, mode)
-	}
-	pred := c55Predicted(s)
-	asPlanned := true
-	for i := range pred {
-		if pred[i] != delivered[i] {
-			asPlanned = false
-		}
-	}
-	if mode == "noparent" {
-		if !asPlanned {
-			res.Count("noparent_delivery_differs_from_plan", 1)
-		} else if s.ExpStatus != 99 && s.ExpStatus != status {
-			res.Count("noparent_status_differs_from_tlc_prediction", 1)
-		}
-	}
-	errText := ""
-	if berr != nil {
-		errText = berr.Error()
-		if len(errText) > 200 {
-			errText = errText[:200]
-		}
-	}
-	rec := map[string]any{"mode": "inproc-" + mode, "script": s.idx, "variant": variant, "group": s.Group, "items": c55Items(s, delivered), "status": status,
-		"saved": saved, "skipped": skipped, "insnap": insnap, "extra": extra, "content_ok": contentOK, "err": errText, "detail": detail, "key": c55Key(s, delivered)}
-	res.Record(rec)
-	res.Count("runs_inproc_"+mode, 1)
-	res.Count(fmt.Sprintf("status_%d", status), 1)
-	k := c55Key(s, delivered)
-	if k != "" {
-		for _, cl := range strings.Split(k, "+") {
-			res.Count("delivered_"+cl, 1)
-		}
-	}
-	res.Case(fmt.Sprintf("%s|%v|%v|%s|%v", mode, s.Parent, s.Kind, k, delivered), k != "")
-	if run%977 == 3 {
-		res.Sample(rec)
+		faulted("skip", opts, parentID)
 	}
 }
 
